@@ -164,7 +164,7 @@ def gen_plan(seed, tier):
         if mode in ("real_then_status", "stub_status"):
             s["status"] = r.choice(STATUSES)
         elif mode == "raise":
-            s["exc"] = r.choice(["InterfacingError", "MemoryError", "InjectedFault"])
+            s["exc"] = r.choice(["InterfacingError", "MemoryError", "InjectedFault", "KeyboardInterrupt"])
         else:
             s["sim_duration"] = r.choice([5.0, 60.0])
             s["late"] = r.choice(["FEASIBLE", "NO_SOLUTION_FOUND"])
@@ -240,7 +240,7 @@ def _call(plan, solver_mode, weights="plan"):
         val = prtpy.partition(algorithm=prtpy.partitioning.ilp, numbins=plan["numbins"], items=items, valueof=valueof,
                               outputtype=getattr(out, plan["out"]), **kw)
         return ("ok", val)
-    except Exception as e:
+    except (Exception, KeyboardInterrupt) as e:
         return ("exc", e)
     finally:
         _solver.use({"mode": "real"})
